@@ -243,6 +243,8 @@ func runC18(c *fw.Ctx) {
 				"send [USD " + ds + "] (source = @a destination = @b)",
 				"send [USD -" + ds + "] (source = @a destination = @b)",
 				"send [USD 1] (source = @a destination = { " + ds + "/" + ds + " to @b remaining kept })",
+				"send [USD 1] (source = @a destination = { " + ds + " / " + ds + " to @b remaining kept })",
+				"send [USD 1] (source = @a destination = { 1/ " + ds + " to @b " + ds + " /" + ds + " kept remaining kept })",
 				"send [USD 1] (source = @a destination = { 0." + ds + "% to @b remaining kept })",
 				"send [USD 1] (source = { " + ds + "% from @a remaining from @b } destination = @c)",
 				"set_tx_meta(\"k\", " + ds + " + " + ds + ")",
